@@ -211,8 +211,8 @@ def report(res, h, build, args, kind, rc, out, err):
 def search(res, tier, seed):
     h = Harness()
     if tier == "quick":
-        plan = [(nt, s, 28, md) for nt in (2, 3, 4, 5, 6, 8, 11, 16) for s, md in ((0, 160), (1, 330), (2, 520))]
-        plain = [(nt, s, 120, 400) for nt in (2, 4, 7, 16) for s in (10, 11)]
+        plan = [(nt, s, 32, md) for nt in range(2, 17) for s, md in ((0, 160), (1, 330), (2, 520), (3, 800))]
+        plain = [(nt, s, 200, 400) for nt in (2, 3, 4, 7, 12, 16) for s in (10, 11)]
     else:
         plan = [(nt, s, 60, md) for nt in range(2, 17) for s, md in ((0, 160), (1, 330), (2, 520), (3, 700), (4, 90), (5, 1100))]
         plain = [(nt, s, 400, 600) for nt in range(2, 17) for s in (10, 11, 12, 13)]
